@@ -532,6 +532,4 @@ val evolve : (bytes -> bytes) -> hobj -> change -> hobj result
 
 val check : (bytes -> bytes) -> hobj -> unit result
 
-val to_dict_has_raw : hobj -> bool
-
 val swhid : hobj -> (bytes * bytes) result
